@@ -175,6 +175,9 @@ def build(ctx):
                     and any(isinstance(x, pyast.Return) and x.value is None for x in body[0].body)
                     and isinstance(body[-1], pyast.Raise)
                     and 'INSERT INTO jobs' in pyast.unparse(tries[0].body[0])
+                    # the jobs INSERT is the FIRST database statement of the transaction: nothing is written before the
+                    # duplicate-bunch test can fire (a write placed before it would be committed again by the early return)
+                    and not any('tx.' in pyast.unparse(x) for x in fn[0].body[: fn[0].body.index(tries[0])])
                 )
     ctx.add(core.decided('_create_jobs/duplicate-bunch-returns-before-any-further-insert', ok2, '', kind='scan'))
     ctx.under_contract(FE, '_create_jobs.insert_jobs_into_db')
